@@ -41,6 +41,8 @@ type Solver struct {
 	inQuery  bool
 	killed   bool
 	Restarts int
+	wd       *time.Timer
+	dead     bool
 }
 
 func NewSolver(b *Builder, kind string, timeoutS int) (*Solver, error) {
@@ -249,11 +251,10 @@ func (s *Solver) readUntilMarker() []string {
 	var lines []string
 	// watchdog: some queries make z3 ignore its own :timeout; kill and restart the process
 	cmd := s.cmd
-	timer := time.AfterFunc(time.Duration(s.TimeoutS+3)*time.Second, func() {
-		s.killed = true
-		cmd.Process.Kill()
-	})
-	defer timer.Stop()
+	if s.wd == nil {
+		s.arm()
+		defer s.disarm()
+	}
 	for {
 		line, err := s.out.ReadString('\n')
 		line = strings.TrimSpace(line)
@@ -279,10 +280,29 @@ func (s *Solver) readUntilMarker() []string {
 	}
 }
 
+// arm starts the watchdog that kills a solver process which ignores its own timeout
+// (also while it is not reading its input, so that a blocked write fails instead of hanging).
+func (s *Solver) arm() {
+	cmd := s.cmd
+	s.wd = time.AfterFunc(time.Duration(s.TimeoutS+5)*time.Second, func() {
+		s.killed = true
+		cmd.Process.Kill()
+	})
+}
+
+func (s *Solver) disarm() {
+	if s.wd != nil {
+		s.wd.Stop()
+		s.wd = nil
+	}
+}
+
 // Check decides satisfiability of pc ∧ extra (extra may be nil).
 // On Sat with wantModel the model is left available for GetValues until the next call.
 func (s *Solver) Check(pc []*Term, extra *Term) Result {
 	t0 := time.Now()
+	s.arm()
+	defer s.disarm()
 	if s.inQuery {
 		s.send("(pop 1)")
 		s.inQuery = false
@@ -331,6 +351,8 @@ func (s *Solver) GetValues(vars []*Term) map[string]string {
 		return out
 	}
 	const chunk = 200
+	s.arm()
+	defer s.disarm()
 	for i := 0; i < len(vars); i += chunk {
 		j := i + chunk
 		if j > len(vars) {
